@@ -31,7 +31,7 @@ RULE = ('pairs of workloads from {iterative cap-bound, iterative tolerance-bound
 BUDGET = {'quick': 25, 'thorough': 300}
 FLOORS = {
     'quick': {'schedules': 300, 'distinct_interleavings': 100, 'both_parked_mid_evaluation': 100,
-              'points': 3000, 'fresh_thread_ops': 22, 'stress_rounds': 8, 'pair:iter+iter': 20,
+              'points': 3000, 'fresh_thread_ops': 24, 'stress_rounds': 8, 'pair:iter+iter': 20,
               'pair:iter+cse': 20, 'pair:cse+iter': 20, 'pair:cse+cse': 20, 'pair:plain+iter': 10,
               'pair:cse+plain': 10, 'pair:offset+offset': 5, 'pair:iter+offset': 5},
     'thorough': {'schedules': 8000, 'distinct_interleavings': 3000, 'fresh_thread_ops': 22,
@@ -513,10 +513,21 @@ def fresh_ops(ctx):
                    'load-yml', 'load-json', 'load-pkl', 'to_file', 'evaluate-built-elsewhere',
                    'set_value-then-evaluate-built-elsewhere'):
             cases.append((iterative, op, spec, target, inp, ref))
+    # a workbook whose functions look references up themselves (CELL, INDEX over OFFSET): built and evaluated on the
+    # main thread, then a workbook of the same kind with other values is evaluated there (it loads the functions
+    # last), then the first one is used on a new thread
+    cr = wl_cellref(ctx.seed)['spec']
+    cr = dict(cr, decoy=wl_cellref(ctx.seed + 3)['spec'])
+    for op in ('evaluate-built-elsewhere', 'set_value-then-evaluate-built-elsewhere'):
+        clean = {k: v for k, v in cr.items() if k != 'decoy'}
+        cases.append((False, op, cr, 'Data Sheet!C1', 'Data Sheet!A1',
+                      wb.outcome(wb.compile_mem(clean).evaluate, 'Data Sheet!C1')))
     for n, (iterative, op, spec, target, inp, ref) in enumerate(cases):
         if not ctx.mine(n):
             continue
-        tag = f'{"iterative" if iterative else "plain"}'
+        tag = f'{"iterative" if iterative else "cellref" if spec.get("decoy") else "plain"}'
+        decoy = spec.get('decoy')
+        spec = {k: v for k, v in spec.items() if k != 'decoy'}
         path = os.path.join(tmp, f'f{n}')
         stored = {a: o[1] for a, o in wb.fresh_values(spec).items() if o[0] == 'v'} if not iterative else None
         # prepared on the main thread
@@ -539,6 +550,8 @@ def fresh_ops(ctx):
             comp = wb.compile_mem(spec)
             if op in ('set_value', 'trim_graph') or op.endswith('built-elsewhere'):
                 wb.outcome(comp.evaluate, target)       # cells are built and evaluated on the main thread
+            if decoy:
+                wb.outcome(wb.compile_mem(decoy).evaluate, target)
 
         def body():
             if op in ('evaluate', 'evaluate-built-elsewhere'):
